@@ -221,9 +221,125 @@ pub fn c01(seed: u64, budget: u64) -> FOut {
     out
 }
 
+/// A seeded single-instance history on the real crate (no model): calls `mon`
+/// after every call with (pre-state, input, effects, outcome, post-state).
+pub fn history(
+    seed: u64,
+    steps: u64,
+    cfg_tweak: impl Fn(&mut MCfg, &mut G),
+    mut mon: impl FnMut(&MState, &Input, &[Eff], &Outcome, &MState, &StepReport) -> bool,
+) {
+    let mut g = G::new(seed);
+    let mut cfg = gen_cfg(&mut g);
+    cfg_tweak(&mut cfg, &mut g);
+    let id = VId { a: 9, g: 1 + g.below(2) as u16, k: g.below(4) as u8, pad: 0 };
+    let mut inst = Inst::new(id, &cfg, g.next(), g.below(4) as u8, g.below(256) as u8);
+    let mut pending: Vec<(u128, MTimer)> = vec![];
+    let mut now: u128 = 0;
+    for _ in 0..steps {
+        let pre = inst.snapshot();
+        let input = gen_input(&mut g, &pre, &mut pending, &cfg);
+        if let Input::Timer(_) = &input {
+            now += 50 * MS;
+        }
+        let rep = checked_step(&mut inst, &input, None);
+        for e in &rep.effects {
+            if let Eff::Submit(t, after) = e {
+                pending.push((now + after, t.clone()));
+            }
+        }
+        if inst.poisoned {
+            break;
+        }
+        let post = rep.post.clone().unwrap();
+        if !mon(&pre, &input, &rep.effects, &rep.outcome, &post, &rep) {
+            break;
+        }
+    }
+}
+
+/// C19: Foca never chooses its own address as a destination
+pub fn c19(seed: u64, budget: u64) -> FOut {
+    let mut out = FOut::default();
+    out.rule = "seeded single-instance histories (300 calls each) in which the instance keeps learning older/newer identities of its own address; every Send destination of every call is compared with the instance's address, except relays to a target named by a peer (IndirectPing after PingReq, ForwardedAck after IndirectAck) and the destination the user passes to announce(); distinct = histories in which at least one own-address record was stored".into();
+    for h in 0..budget {
+        let mut saw_own = false;
+        let mut hits: Vec<(String, J)> = vec![];
+        history(
+            seed.wrapping_mul(7919).wrapping_add(h),
+            300,
+            |c, g| {
+                // all eight combinations of periodic tasks
+                let m = g.below(8);
+                c.periodic_announce = if m & 1 != 0 { Some((5000 * MS, 2)) } else { None };
+                c.periodic_announce_down = if m & 2 != 0 { Some((7000 * MS, 2)) } else { None };
+                c.periodic_gossip = if m & 4 != 0 { Some((300 * MS, 2)) } else { None };
+                if c.max_packet_size < 40 {
+                    c.max_packet_size = 200;
+                }
+            },
+            |pre, input, effs, _o, post, _r| {
+                if post.members.iter().any(|m| m.id.a == post.identity.a) {
+                    saw_own = true;
+                }
+                // B3: identity changes keep the address
+                if let Input::ChangeIdentity(n) = input {
+                    if n.a != pre.identity.a {
+                        return false;
+                    }
+                }
+                let relay_target: Option<VId> = match input {
+                    Input::Data(b) => match split_datagram(b) {
+                        Some((h, _, _)) => match h.message {
+                            foca::Message::PingReq { target, .. } => Some(target),
+                            foca::Message::IndirectAck { target, .. } => Some(target),
+                            _ => None,
+                        },
+                        None => None,
+                    },
+                    Input::Announce(d) => Some(*d),
+                    // a (forged) suspicion timer names its member: the courtesy TurnUndead goes there
+                    Input::Timer(MTimer::SuspectToDown(d, _, _)) => Some(*d),
+                    _ => None,
+                };
+                for e in effs {
+                    if let Eff::Send(d, b) = e {
+                        if d.a == pre.identity.a && Some(*d) != relay_target {
+                            let kind = split_datagram(b).map(|x| format!("{:?}", x.0.message)).unwrap_or_default();
+                            let kind = kind.split(|c| c == '(' || c == ' ').next().unwrap_or("").to_string();
+                            hits.push((
+                                format!("C19:own-address-destination:{}:{}", input.kind(), kind),
+                                J::obj(vec![
+                                    ("identity", J::s(format!("{:?}", pre.identity))),
+                                    ("destination", J::s(format!("{d:?}"))),
+                                    ("input", J::s(format!("{input:?}"))),
+                                    ("members", J::s(format!("{:?}", pre.members))),
+                                ]),
+                            ));
+                        }
+                    }
+                }
+                true
+            },
+        );
+        out.runs += 1;
+        if saw_own {
+            out.distinct.insert(h);
+        }
+        for (s, d) in hits {
+            out.hit(&s, d);
+        }
+        if h < 1 {
+            out.samples.push(J::s(format!("history seed {} (300 calls)", seed.wrapping_mul(7919).wrapping_add(h))));
+        }
+    }
+    out
+}
+
 pub fn run(prop: &str, seed: u64, budget: u64) -> Option<FOut> {
     match prop {
         "C01" => Some(c01(seed, budget)),
+        "C19" => Some(c19(seed, budget)),
         _ => None,
     }
 }
